@@ -253,7 +253,7 @@ func (g *Gen) script() string {
 	return b.String()
 }
 
-var symRe = regexp.MustCompile(`(tag|ub\$S|bx\$S|S|mk|f)\$[A-Za-z0-9_.$]+`)
+var symRe = regexp.MustCompile(`(tag|ub\$S|bx\$S|S|mk|fn|f)\$[A-Za-z0-9_.$]+`)
 
 // demandSpecSymbols declares type-dependent symbols the spec text refers to (tags, boxes, struct sorts).
 func (g *Gen) demandSpecSymbols(spec string) {
@@ -270,6 +270,14 @@ func (g *Gen) demandSpecSymbols(spec string) {
 		}
 		if kind == "f" {
 			name = name[:strings.LastIndex(name, "$")]
+		}
+		if kind == "fn" {
+			for k, fn := range g.w.Funcs {
+				if sanitize(k) == name {
+					g.fnConst(fn)
+				}
+			}
+			continue
 		}
 		t := g.w.typeByName(name)
 		if t == nil {
